@@ -32,12 +32,13 @@ CONSTANTS
     InitSeq,      \* sequence of <<m, e>>: initial concentrations m * 10^e (solutes)
     InitPatterns, \* set of <<a, b>>: species s gets InitSeq[((a*s + b) % Len(InitSeq)) + 1]
     SolidInits,   \* set of <<m, e>> for the solid phase
+    GuessShifts,  \* pattern shifts defining the explicit starting guess handed to the solver
     GridProblems, \* coarse-grid problems for the switching model (EqSolve_MC)
     GridStates,   \* coarse-grid encoded states the ideal solver may return
     MaxChain      \* number of conditional runs in a chain (model)
 
-VARIABLES phase, sys, kshift, init, lnK, c0, x, conds, nconds, solved, succ, iter, maxiter, runs, out, sexp
-vars == <<phase, sys, kshift, init, lnK, c0, x, conds, nconds, solved, succ, iter, maxiter, runs, out, sexp>>
+VARIABLES phase, sys, kshift, init, lnK, c0, x, conds, nconds, solved, succ, iter, maxiter, runs, out, sexp, guess
+vars == <<phase, sys, kshift, init, lnK, c0, x, conds, nconds, solved, succ, iter, maxiter, runs, out, sexp, guess>>
 
 LIMB == 1000000
 BIG == 2000000000
@@ -63,7 +64,7 @@ ASSUME Len(BaseK) = NRx
 Init ==
     /\ phase = "pick" /\ sys = NoSys /\ kshift = <<>> /\ init = <<>> /\ lnK = <<>> /\ c0 = NoVec /\ x = NoVec
     /\ conds = <<>> /\ nconds = <<>> /\ solved = FALSE /\ succ = FALSE /\ iter = 0 /\ maxiter = 20
-    /\ runs = 0 /\ out = NoOut /\ sexp = 0
+    /\ runs = 0 /\ out = NoOut /\ sexp = 0 /\ guess = <<>>
 
 ------------------------------------------------------------------------------
 (* (1) the problem pool *)
@@ -80,27 +81,31 @@ DeterminedSys(si) == si.rankB + Len(si.rs) = Len(si.ss)
 PickSystem(S) ==
     /\ phase = "pick" /\ Admissible(S) /\ DeterminedSys(SysInfo(S))
     /\ sys' = SysInfo(S) /\ phase' = "shift"
-    /\ UNCHANGED <<kshift, init, lnK, c0, x, conds, nconds, solved, succ, iter, maxiter, runs, out, sexp>>
+    /\ UNCHANGED <<kshift, init, lnK, c0, x, conds, nconds, solved, succ, iter, maxiter, runs, out, sexp, guess>>
 
 ShiftK(d) ==
     /\ phase = "shift" /\ Len(kshift) < NR
     /\ kshift' = Append(kshift, d)
     /\ phase' = IF Len(kshift') = NR THEN "init" ELSE "shift"
-    /\ UNCHANGED <<sys, init, lnK, c0, x, conds, nconds, solved, succ, iter, maxiter, runs, out, sexp>>
+    /\ UNCHANGED <<sys, init, lnK, c0, x, conds, nconds, solved, succ, iter, maxiter, runs, out, sexp, guess>>
 
 \* initial composition: water 55.5, the solid from SolidInits, solutes by a pattern over InitSeq
 \* every element of the system is present initially
 ElementsPresent(ini) ==
     \A k \in 1..Len(sys.B) : sys.ks[k] # 0 => \E j \in 1..NS : sys.B[k][j] > 0 /\ ini[j][1] > 0
 
-PickInit(a, b, sol) ==
+\* A starting guess x0 may accompany a problem (continuation / titration loops hand over the previous
+\* solution): here the composition the NEXT pattern would give - a different mixture with different
+\* elemental totals.  A guess is only a guess: the result is judged against init, never against it.
+PickInit(a, b, sol, g) ==
     /\ phase = "init" /\ Len(InitSeq) > 0
-    /\ LET ini == [j \in 1..NS |->
-                     IF sys.ss[j] = 1 THEN Water
-                     ELSE IF j \in sys.solid THEN sol
-                     ELSE InitSeq[((a * sys.ss[j] + b) % Len(InitSeq)) + 1]]
-       IN  /\ ElementsPresent(ini) = TRUE     \* (compared with TRUE: evaluated, not enumerated)
-           /\ init' = ini
+    /\ LET pat(sh) == [j \in 1..NS |->
+                          IF sys.ss[j] = 1 THEN Water
+                          ELSE IF j \in sys.solid THEN sol
+                          ELSE InitSeq[((a * sys.ss[j] + b + sh) % Len(InitSeq)) + 1]]
+       IN  /\ ElementsPresent(pat(0)) = TRUE     \* (compared with TRUE: evaluated, not enumerated)
+           /\ init' = pat(0)
+           /\ guess' = pat(g)
     /\ phase' = "posed"
     /\ UNCHANGED <<sys, kshift, lnK, c0, x, conds, nconds, solved, succ, iter, maxiter, runs, out, sexp>>
 
@@ -122,7 +127,7 @@ RateOK(nok, n) == n > 0 /\ RateDen * nok >= RateNum * n
 GenPickHomog == phase = "pick" /\ \E k \in 1..MaxHomog : \E S \in kSubset(k, HomogIds) : PickSystem(S)
 GenPickSalt == phase = "pick" /\ \E r \in SaltIds, W \in SaltWith : PickSystem({r} \cup W)
 GenShiftK == \E d \in KShifts : ShiftK(d)
-GenPickInit == \E p \in InitPatterns, sol \in SolidInits : PickInit(p[1], p[2], sol)
+GenPickInit == \E p \in InitPatterns, sol \in SolidInits, g \in GuessShifts : PickInit(p[1], p[2], sol, g)
 
 ------------------------------------------------------------------------------
 (* (3) judgement over encoded vectors *)
@@ -257,7 +262,7 @@ Pose(S, lnk, v0, se) ==
     /\ phase = "pick" /\ Admissible(S)
     /\ sys' = SysInfo(S) /\ lnK' = lnk /\ c0' = v0 /\ sexp' = se /\ phase' = "idle"
     /\ Len(lnk) = Cardinality(S)
-    /\ UNCHANGED <<kshift, init, x, conds, nconds, solved, succ, iter, maxiter, runs, out>>
+    /\ UNCHANGED <<kshift, init, x, conds, nconds, solved, succ, iter, maxiter, runs, out, guess>>
 
 AllFalse == [t \in 1..Len(PT) |-> FALSE]
 
@@ -268,20 +273,20 @@ Begin(v, given, cnd, mx) ==
     /\ x' = v /\ iter' = 0 /\ maxiter' = mx /\ solved' = FALSE /\ nconds' = <<>> /\ runs' = runs + 1
     /\ IF given THEN Len(cnd) = Len(PT) /\ conds' = cnd /\ phase' = "solve"
        ELSE conds' = AllFalse /\ phase' = "eval"
-    /\ UNCHANGED <<sys, kshift, init, lnK, c0, succ, out, sexp>>
+    /\ UNCHANGED <<sys, kshift, init, lnK, c0, succ, out, sexp, guess>>
 
 \* the next condition to evaluate is number Len(nconds)+1; which rule applies depends on conds
 EvalFw(i, vd, verdict) ==
     /\ phase = "eval" /\ Len(nconds) < Len(PT) /\ PT[Len(nconds) + 1] = i /\ ~conds[Len(nconds) + 1]
     /\ FwOK(i, x, vd, verdict)
     /\ nconds' = Append(nconds, verdict)
-    /\ UNCHANGED <<phase, sys, kshift, init, lnK, c0, x, conds, solved, succ, iter, maxiter, runs, out, sexp>>
+    /\ UNCHANGED <<phase, sys, kshift, init, lnK, c0, x, conds, solved, succ, iter, maxiter, runs, out, sexp, guess>>
 
 EvalBw(i, verdict) ==
     /\ phase = "eval" /\ Len(nconds) < Len(PT) /\ PT[Len(nconds) + 1] = i /\ conds[Len(nconds) + 1]
     /\ BwOK(i, x, verdict)
     /\ nconds' = Append(nconds, verdict)
-    /\ UNCHANGED <<phase, sys, kshift, init, lnK, c0, x, conds, solved, succ, iter, maxiter, runs, out, sexp>>
+    /\ UNCHANGED <<phase, sys, kshift, init, lnK, c0, x, conds, solved, succ, iter, maxiter, runs, out, sexp, guess>>
 
 Evaluated == phase = "eval" /\ Len(nconds) = Len(PT)
 
@@ -289,7 +294,7 @@ Evaluated == phase = "eval" /\ Len(nconds) = Len(PT)
 Adopt ==
     /\ Evaluated /\ ~solved
     /\ conds' = nconds /\ nconds' = <<>> /\ phase' = "solve"
-    /\ UNCHANGED <<sys, kshift, init, lnK, c0, x, solved, succ, iter, maxiter, runs, out, sexp>>
+    /\ UNCHANGED <<sys, kshift, init, lnK, c0, x, solved, succ, iter, maxiter, runs, out, sexp, guess>>
 
 \* the numerical solver returns vn for the system selected by cnd (several NumSys may be chained)
 SolveWith(cnd, vn, ok) ==
@@ -298,23 +303,23 @@ SolveWith(cnd, vn, ok) ==
     /\ cnd = conds
     /\ x' = vn /\ succ' = ok /\ solved' = TRUE /\ nconds' = <<>>
     /\ phase' = "eval"
-    /\ UNCHANGED <<sys, kshift, init, lnK, c0, conds, iter, maxiter, runs, out, sexp>>
+    /\ UNCHANGED <<sys, kshift, init, lnK, c0, conds, iter, maxiter, runs, out, sexp, guess>>
 
 Switch ==
     /\ Evaluated /\ solved /\ nconds # conds
     /\ conds' = nconds /\ nconds' = <<>> /\ iter' = iter + 1 /\ solved' = FALSE
     /\ phase' = "solve"
-    /\ UNCHANGED <<sys, kshift, init, lnK, c0, x, succ, maxiter, runs, out, sexp>>
+    /\ UNCHANGED <<sys, kshift, init, lnK, c0, x, succ, maxiter, runs, out, sexp, guess>>
 
 Terminate ==
     /\ Evaluated /\ solved /\ nconds = conds
     /\ phase' = "term"
-    /\ UNCHANGED <<sys, kshift, init, lnK, c0, x, conds, nconds, solved, succ, iter, maxiter, runs, out, sexp>>
+    /\ UNCHANGED <<sys, kshift, init, lnK, c0, x, conds, nconds, solved, succ, iter, maxiter, runs, out, sexp, guess>>
 
 GiveUp ==
     /\ phase = "solve" /\ iter >= maxiter
     /\ phase' = "fail"
-    /\ UNCHANGED <<sys, kshift, init, lnK, c0, x, conds, nconds, solved, succ, iter, maxiter, runs, out, sexp>>
+    /\ UNCHANGED <<sys, kshift, init, lnK, c0, x, conds, nconds, solved, succ, iter, maxiter, runs, out, sexp, guess>>
 
 \* the public result.  Only "success and sane" is a claim.  judged: TRUE for the library's own
 \* formulations (the claim implies Genuine), FALSE for a deliberately wrong stub formulation (the claim
@@ -327,7 +332,7 @@ Report(vr, ok, sn, exc, isnan, judged) ==
             /\ (ok /\ sn /\ judged) => (~isnan /\ Genuine(vr))
     /\ out' = [x |-> vr, ok |-> ok, sane |-> sn, exc |-> exc]
     /\ phase' = "done"
-    /\ UNCHANGED <<sys, kshift, init, lnK, c0, x, conds, nconds, solved, succ, iter, maxiter, runs, sexp>>
+    /\ UNCHANGED <<sys, kshift, init, lnK, c0, x, conds, nconds, solved, succ, iter, maxiter, runs, sexp, guess>>
 
 \* a second, independent solver (bracketing on the reaction coordinate) on a single-equilibrium
 \* problem: its own output must be genuine (non-negative, same totals, Q = K to its absolute accuracy)
@@ -337,7 +342,7 @@ Bracket(w) ==
     /\ GenuineAbs(w) = TRUE      \* (compared with TRUE: evaluated as an expression, short-circuit)
     /\ (out.ok /\ out.sane) => Close(out.x, w, IF AbsTolUnits > 1000 THEN AbsTolUnits ELSE 1000)
     /\ phase' = "checked"
-    /\ UNCHANGED <<sys, kshift, init, lnK, c0, x, conds, nconds, solved, succ, iter, maxiter, runs, out, sexp>>
+    /\ UNCHANGED <<sys, kshift, init, lnK, c0, x, conds, nconds, solved, succ, iter, maxiter, runs, out, sexp, guess>>
 
 ------------------------------------------------------------------------------
 (* the switching machine with an IDEAL solver on a coarse grid (EqSolve_MC): the exact         *)
@@ -382,7 +387,7 @@ PoolCase ==
     [in  |-> [rids |-> sys.rs, sidx |-> sys.ss,
               species |-> [j \in 1..NS |-> [name |-> SpName[sys.ss[j]], comp |-> PairSeq(SpComp[sys.ss[j]]),
                                             solid |-> j \in sys.solid]],
-              nu |-> sys.nu, K |-> ProblemK, c0 |-> init, kshift |-> kshift],
+              nu |-> sys.nu, K |-> ProblemK, c0 |-> init, guess |-> guess, kshift |-> kshift],
      exp |-> [wellcond |-> WellConditioned, homog |-> Homogeneous, determined |-> Determined, single |-> (NR = 1 /\ Homogeneous /\ \A j \in 1..NS : init[j][1] > 0),
               rate |-> <<RateNum, RateDen>>],
      cls |-> IF ~Homogeneous THEN (IF sys.nu[PT[1]][SolidPos(PT[1])] < 0 THEN "salt-reac" ELSE "salt-prod")
